@@ -169,6 +169,35 @@ func init() {
 			})
 		}
 		x.DefStrings("loadCaseReturns", loadRets)
+		x.Comment("store/store.go ReadFrom: the single-node guard: the call whose result is counted, the test, the error returned")
+		var guard []string
+		if fd := x.Func("store", "Store", "ReadFrom"); fd != nil {
+			counted := map[string]string{} // variable -> callee it was assigned from
+			for _, st := range fd.Body.List {
+				if a, ok := st.(*ast.AssignStmt); ok && len(a.Lhs) == 2 && len(a.Rhs) == 1 {
+					if c, ok := a.Rhs[0].(*ast.CallExpr); ok {
+						counted[x.Src(a.Lhs[0])] = x.Src(c.Fun)
+					}
+				}
+				is, ok := st.(*ast.IfStmt)
+				if !ok || len(is.Body.List) != 1 {
+					continue
+				}
+				r, ok := is.Body.List[0].(*ast.ReturnStmt)
+				if !ok || len(r.Results) != 2 || x.Src(r.Results[1]) != "ErrNotSingleNode" {
+					continue
+				}
+				cond := x.Src(is.Cond)
+				src := "?"
+				for v, callee := range counted {
+					if strings.Contains(cond, "len("+v+")") {
+						src = callee
+					}
+				}
+				guard = append(guard, src, cond, x.Src(r.Results[1]))
+			}
+		}
+		x.DefStrings("bootGuard", guard)
 		x.Comment("store/store.go fsmSnapshot: the kind of snapshot is decided by reading what is due next")
 		if fd := x.Func("store", "Store", "fsmSnapshot"); fd != nil {
 			steps := x.callSeq(fd.Body, "s.snapshotDueNext")
@@ -204,13 +233,25 @@ func init() {
 		}
 		x.Comment("store/store.go createSnapshotFingerprint: written to a temp file, then renamed")
 		if fd := x.Func("store", "Store", "createSnapshotFingerprint"); fd != nil {
-			x.DefStrings("fingerprintSteps", x.callSeq(fd.Body, "s.db.DBLastModified", "s.db.FileSize", "rsum.CRC32WithTiming", "fp.WriteToFile", "os.Rename"))
+			x.DefStrings("fingerprintSteps", x.callSeq(fd.Body, "s.db.DBLastModified", "s.db.FileSize", "rsum.CRC32WithTiming", "snapshot.LatestIndexTerm", "fp.WriteToFile", "os.Rename"))
+			// the marker records which snapshot it was written for
+			var rec []string
+			ast.Inspect(fd.Body, func(n ast.Node) bool {
+				if kv, ok := n.(*ast.KeyValueExpr); ok {
+					if k := x.Src(kv.Key); k == "SnapshotIndex" || k == "SnapshotTerm" {
+						rec = append(rec, k+": "+x.Src(kv.Value))
+					}
+				}
+				return true
+			})
+			x.DefStrings("fingerprintRecordsSnapshot", rec)
 		} else {
 			x.DefStrings("fingerprintSteps", nil)
+			x.DefStrings("fingerprintRecordsSnapshot", nil)
 		}
 		x.Comment("store/store.go Open: recovery request checked before the fingerprint is trusted; recovery before the database is created; WAL staging removed")
 		if fd := x.Func("store", "Store", "Open"); fd != nil {
-			x.DefStrings("openSteps", x.callSeq(fd.Body, "snapshot.NewStore", "snapshotStore.Len", "fp.ReadFromFile", "fsutil.ModTimeSize", "rlog.New",
+			x.DefStrings("openSteps", x.callSeq(fd.Body, "snapshot.NewStore", "snapshotStore.Len", "fp.ReadFromFile", "fsutil.ModTimeSize", "snapshotStore.LatestIndexTerm", "rlog.New",
 				"raft.ReadConfigJSON", "recoverNode", "RecoverNode", "createDBOnDisk", "os.RemoveAll", "raft.NewRaft"))
 			pp, fr := token.NoPos, firstPos(x, fd.Body, "fp.ReadFromFile")
 			ast.Inspect(fd.Body, func(n ast.Node) bool {
@@ -220,8 +261,20 @@ func init() {
 				return true
 			})
 			x.DefOptBool("openPeersCheckedBeforeFingerprint", pp < fr, pp != token.NoPos && fr != token.NoPos)
+			// the fast path is left when the marker is for another snapshot than the newest one
+			var chk []string
+			ast.Inspect(fd.Body, func(n ast.Node) bool {
+				if is, ok := n.(*ast.IfStmt); ok {
+					if c := x.Src(is.Cond); strings.Contains(c, "fp.SnapshotIndex") {
+						chk = append(chk, c)
+					}
+				}
+				return true
+			})
+			x.DefStrings("openMarkerSnapshotCheck", chk)
 		} else {
 			x.DefStrings("openSteps", nil)
+			x.DefStrings("openMarkerSnapshotCheck", nil)
 			x.DefOptBool("openPeersCheckedBeforeFingerprint", false, false)
 		}
 		x.Comment("store/store.go createDBOnDisk: WAL files are always removed")
